@@ -461,6 +461,35 @@ Section Equiv.
     rewrite Parser_discardLine_loop_eq. destruct (discard_loop ilh idh F F _); reflexivity.
   Qed.
 
+  (** Parser.string: the labelled rune loop; strings.Builder = the bytes written so far (translated: appended at the end;
+      hand model: reversed accumulator) *)
+  Lemma Parser_string_loop_eq : forall f tok b racc st, b = rev racc ->
+    Parser_string_loop1 f tok b st = string_loop f (t_pos tok) racc st.
+  Proof.
+    induction f; intros tok b racc st H; [reflexivity|].
+    cbn [Parser_string_loop1 string_loop]. norm.
+    destruct (next_rune st); try reflexivity. cbv beta iota.
+    destruct (a =? -1); cbv beta iota; [reflexivity|].
+    destruct (a =? 34); cbv beta iota; [subst; reflexivity|].
+    destruct (a =? 10); cbv beta iota; [apply IHf; subst; reflexivity|].
+    assert (Hd : b ++ utf8_encode a = rev (rev_append (utf8_encode a) racc)).
+    { rewrite rev_append_rev, rev_app_distr, rev_involutive. subst; reflexivity. }
+    destruct (a =? 92); cbv beta iota; [|apply IHf; exact Hd].
+    destruct (peek_rune st0); try reflexivity. cbv beta iota.
+    destruct (a0 =? 34); cbv beta iota; [|apply IHf; exact Hd].
+    destruct (next_rune st1); try reflexivity. cbv beta iota.
+    apply IHf. subst. simpl. rewrite <- app_assoc. reflexivity.
+  Qed.
+
+  Lemma TP_Parser_string_eq : forall st, Parser_string ilh idh F st = p_string ilh idh F st.
+  Proof.
+    intros. unfold Parser_string, p_string. norm.
+    destruct (next_token ilh idh F st); try reflexivity. cbv beta iota.
+    destruct (t_typ a =? 34); cbv beta iota; [|reflexivity].
+    rewrite Parser_string_loop_eq with (racc := []) by reflexivity.
+    destruct (string_loop _ _ _ _); reflexivity.
+  Qed.
+
   (** ================================================================ Parse(): keyword switch and loop *)
   Ltac disp :=
     first [ apply TP_VersionDef_parseFrom_eq | apply TP_BitTimingDef_parseFrom_eq | apply TP_NewSymbolsDef_parseFrom_eq
